@@ -25,7 +25,7 @@ import (
 )
 
 type crashStats struct {
-	Cases, DistinctNontrivial, Ops, Appends, DeniedAppends, Joins, Publishes, Writes, Removes, Returned, Loads, IdenticalBlocks, NegLengths int
+	Cases, DistinctNontrivial, Ops, Appends, DeniedAppends, Joins, Publishes, Writes, Removes, Returned, Loads, IdenticalBlocks, NegLengths, Outages int
 	shapes                                                                                                                    map[string]bool
 }
 
@@ -126,7 +126,17 @@ func runCrash(seed int64, n int, out *bufio.Writer, thorough bool) *crashStats {
 					pl = fmt.Sprintf("p%d", k)
 				}
 				pc := []int{0, 1, 2, 4, 8}[r.Intn(5)]
+				// one append in eight meets a store outage: its block write is refused.  It must fail and leave
+				// the replica as it was — an append acknowledged without its block breaks closure at the next write
+				outage := r.Intn(8) == 0
+				if outage {
+					api.D.SetFailNext(1)
+					st.Outages++
+				}
 				e, err := l.Append(ctx, []byte(pl), &iface.AppendOptions{PointerCount: pc, Pin: r.Intn(3) == 0})
+				if outage {
+					api.D.SetFailNext(0)
+				}
 				shape += fmt.Sprintf("A%d.%s;", i, pl)
 				if err != nil {
 					st.DeniedAppends++
